@@ -22,6 +22,9 @@ CHECKS = {
  "C11": dict(level="exploration", technique="conservation monitor on six read views of the live Env + reference stack model; multi-thread layer under sys.monitoring delay injection",
    text="Random nested swap / DELETE_VAR mask / overlay / `$K=v cmd` scope programs run on the real Env; a snapshot of every read path is conserved across each scope (normal and exception exit), masks must vanish from all views at once, assignments to other variables must persist, alias threads must see the spawner's view, and 2-4 concurrent threads each check only their own view while delays are injected into swap/_set_item/_del_item/detype.",
    note="Keys are warmed up before the first snapshot; swapped values are pre-typed; swaps nested inside an overlay shadowing the same key and the shared detype cache are listed known findings, so detype views are not separately judged in the multi-thread layer.", ref="§2 C11"),
+ "C10": dict(level="exploration", technique="round-trip monitor per registered variable type + launch-image monitor (prep_env_subproc dict and real `env -0` children) against an independent rendering after random env histories",
+   text="Every registered variable with a typed validator gets generated valid values and must survive detype -> Env(...) -> typed; histories of set/del/in-place mutation (fresh read and held reference)/swap/`$K=v cmd`/UPDATE_OS_ENVIRON toggles/detype reads are interleaved with launches and the mapping handed to the child (and printed by a real child) is compared with a 10-line independent rendering computed after the system's answer.",
+   note="Untyped (always_true) variables are not judged for round trip; validators without a generator are counted in evidence; only the harness' tracked variables are compared in launch images.", ref="§2 C10"),
 }
 NOT_BUILT = "check not built yet in this session (planned, see DESIGN.md §2); nothing is claimed for it"
 def main():
